@@ -107,6 +107,10 @@ func TestVerifSys(t *testing.T) {
 		res := vlib.NewResult("C15", "sys-c15-client-binary", "the client binary with unusable -ice values, an unreachable and a refusing broker, and a healthy configuration: it must stay alive with its SOCKS connection open while rendezvous fails, stop polling the broker once the SOCKS connection is closed (polls counted by a per-client broker front), and end on SIGTERM; non-trivial = every case, distinct by case")
 		defer res.Finish()
 		sysC15(res)
+	case "c11":
+		res := vlib.NewResult("C11", "sys-c11-client-binary", "the client binary configured with (a) a broker URL whose host does not resolve plus -front, (b) a broker URL pointing at the listener, (c) -ampcache whose host does not resolve plus -front; scripted front listeners record every rendezvous request (Host header, method, path, body / encoded path) and answer with one response class each (small, exactly the 100 KB limit, limit+1, 2x limit, 503, 404; AMP: armored); whether a response was accepted is read from the client's own log; non-trivial = case that saw >=1 request, distinct by (mode, class)")
+		defer res.Finish()
+		sysC11(res)
 	case "c20":
 		sysC01(t, "C20")
 	default:
